@@ -1,6 +1,6 @@
 """C18 - GF(2) routines (one clause: well-typed empty kernel; inputs not mutated)."""
 from ..rules_flow import Flow
-from ..rules_k import E1_typed_empties, E1_kernel_shape, K17_elimination_bounds
+from ..rules_k import E1_typed_empties, E1_kernel_shape, K17_elimination_bounds, K17_column_sweep
 from ..rules_alias import A4_params
 
 FQS = ["f2_algebra.rref", "f2_algebra.rref_and_basis_change", "f2_algebra.rank", "f2_algebra.null_space"]
@@ -13,8 +13,10 @@ def run(tree, rep, tier):
     E1_kernel_shape(rep, flow)
     A4_params(rep, flow, only=FQS)
     K17_elimination_bounds(rep, flow)
+    K17_column_sweep(rep, flow)
     rep.rules["A4"]["floor"] = 4
     rep.trusted += ["N1"]
     rep.decided += ["the null-space routine returns an integer-typed two-dimensional (k, cols) array also for k = 0 (E1)", "rref, rref_and_basis_change, rank, null_space never mutate their argument (A4)",
-                    "where the eliminations are while-loops over (row cursor, column cursor), the cursors are bounded by the dimensions of A themselves (K17; a necessary condition of 'every row can be a pivot row')"]
+                    "where the eliminations are while-loops over (row cursor, column cursor), the cursors are bounded by the dimensions of A themselves (K17; a necessary condition of 'every row can be a pivot row')",
+                    "no elimination sweeps its column index only up to min(rows, cols), and the rank is not read off the diagonal of the reduced matrix (K17b; both necessary for wide matrices)"]
     rep.not_decided += ["uniqueness of the RREF, rank, M*A = RREF, M*M_inv = I, exactness of the kernel (value-level arithmetic on runtime matrices)"]
